@@ -222,7 +222,16 @@ pub fn check_stream(obs: &mut Obs, items: &[Item], via_record: bool, shape: u64)
         let solo = mon::catch(|| decode_messages(&mut Cursor::new(it.bytes())));
         match solo {
             Ok(Ok(v)) if v.len() == 1 => {
-                if v[0] != *m {
+                // equal by the library's own `==`, and (for the fixed frames, whose contents are not
+                // compared field by field below) equal in their Debug rendering too - a second opinion
+                // that does not go through PartialEq; a rendering that panics on undocumented codes
+                // is not this property's concern and is skipped
+                let differs_in_rendering = !matches!(it, Item::Radial { .. })
+                    && matches!(
+                        (mon::catch(|| format!("{:?}", v[0].contents())), mon::catch(|| format!("{:?}", m.contents()))),
+                        (Ok(a), Ok(b)) if a != b
+                    );
+                if v[0] != *m || differs_in_rendering {
                     obs.violation(
                         "entry differs from the same message decoded alone",
                         format!("entry {} of kinds {}", i, kinds(items)),
@@ -456,6 +465,22 @@ distinct = distinct kind sequences / (message index, offset-in-message class, ty
                 }
             };
             items.push(it);
+        }
+        // one stream in six is a whole number of 2432-byte frames long although it holds
+        // variable-length messages (fill in front of the last block of its last radial): a length
+        // that looks like a metadata record's says nothing about what the record holds
+        if rng.chance(1, 6) {
+            let total: usize = items.iter().map(|it| it.bytes().len()).sum();
+            let pad = (2432 - total % 2432) % 2432;
+            if let Some(Item::Radial { hdr, spec, bytes }) = items.iter_mut().rev().find(|it| matches!(it, Item::Radial { spec, .. } if !spec.blocks.is_empty())) {
+                let n = spec.blocks.len();
+                if spec.gaps.len() == n && spec.is_frameable() {
+                    spec.gaps[n - 1] += pad;
+                    let body = spec.encode(&mut rng);
+                    *bytes = enc::msg31_bytes(hdr, &body);
+                    obs.count("streams_a_whole_number_of_frames_long", 1);
+                }
+            }
         }
         let mut shape = mix(2, len as u64);
         for it in &items {
